@@ -17,9 +17,9 @@ import (
 func init() {
 	register(&CheckSpec{
 		ID: "C19", Fn: c19, Race: true,
-		Rule:        "one evaluation = one book built by the public Initialize (cache off) from a generated game collection (1-300 games of 1-30 plies played by refchess, with transposed move orders, duplicate games, an illegal but well-formed move or an unreadable token mid-line) rendered as Simple, SAN and PGN (tags, {} and ; comments, % lines, NAGs, nested variations, numbering styles, results, wrapped lines); compared entry by entry with the expectation computed by single-threaded replay of the reference moves: key set, visit counters, every offered move legal in its position (refchess), leading to its linked successor key, offered once; the three formats agree; the same file rebuilt under GOMAXPROCS 1/2/4/16 gives identical (key -> counter) maps; half of the shards under the race detector; distinct = distinct (collection, format, GOMAXPROCS) builds",
+		Rule:        "one evaluation = one book built by the public Initialize (cache off) from a generated game collection (1-300 games of 1-30 plies played by refchess, with transposed move orders, duplicate games, an illegal but well-formed move or an unreadable token mid-line) rendered as Simple, SAN and PGN (tags, {} and ; comments, % lines, NAGs, nested variations, numbering styles, results, wrapped lines); compared entry by entry with the expectation computed by single-threaded replay of the reference moves: key set, visit counters, every offered move legal in its position (refchess), leading to its linked successor key, offered once; the three formats agree; the same file rebuilt under GOMAXPROCS 1/2/4/16 gives identical (key -> counter) maps; every eighth collection is a contention collection (60-260 adjacent pairs of transposing games, 2-4 copies each, rebuilt 12 times under GOMAXPROCS up to 64) aimed at the first discovery of a position by several line goroutines at once; half of the shards under the race detector; distinct = distinct (collection, format, GOMAXPROCS) builds",
 		Assumptions: []string{"positions are identified by the engine's zobrist key (judged by C04)", "promotions are excluded (the Simple format cannot express them)", "successor lists depend on insertion order and are judged per move, not as sequences"},
-		Required:    []string{"builds", "collections", "games", "transposition_games", "duplicate_games", "illegal_tail_games", "unreadable_tail_games", "entries_checked", "moves_checked", "format_simple", "format_san", "format_pgn", "gomaxprocs_variants", "insertion_orders_seen"},
+		Required:    []string{"builds", "collections", "games", "transposition_games", "duplicate_games", "illegal_tail_games", "unreadable_tail_games", "entries_checked", "moves_checked", "format_simple", "format_san", "format_pgn", "gomaxprocs_variants", "insertion_orders_seen", "contention_collections"},
 		MinEvals:    100,
 		TimeoutQ:    15 * 60e9,
 	})
@@ -73,6 +73,13 @@ func c19(c *Ctx) {
 			nGames = 20 + r.Intn(c.Size(120, 300))
 		}
 		bs := genBookSet(r, nGames, 1+r.Intn(30))
+		contention := ci%8 == 3
+		if contention {
+			// first discovery of a position by several lines at once (transposing partners,
+			// adjacent, several copies): a check-then-act gap in the insert path shows here
+			bs = genContentionSet(r, 60+r.Intn(c.Size(100, 200)), 2+r.Intn(3))
+			rep.Inc("contention_collections")
+		}
 		want, boards := expectedBook(bs)
 		rep.Inc("collections")
 		rep.Count("games", int64(len(bs.Games)))
@@ -131,6 +138,12 @@ func c19(c *Ctx) {
 			procs := []int{16, 1, 2, 4, 16}
 			if c.Thorough() {
 				procs = append(procs, 16, 3, 8, 16, 1)
+			}
+			if contention {
+				procs = []int{64, 64, 16, 64, 8, 64, 32, 64, 64, 4, 64, 64}
+				if c.Race {
+					procs = procs[:6]
+				}
 			}
 			for pi, np := range procs {
 				old := runtime.GOMAXPROCS(np)
